@@ -114,4 +114,4 @@ def run(ctx):
     # the reverse step inverts the forward step only if both are functions of their arguments: a step that updates a
     # tensor it was handed (carried f / g, an SDE output, a Brownian increment) in place changes data it does not own
     from . import c05
-    ctx.guard(c05.r05_5)
+    ctx.guard(c05.r05_5_solvers)
